@@ -16,7 +16,15 @@ from .. import inproc
 from .. import session
 
 PROP = "C07"
-HEADER = "import pytest\nfrom inline_snapshot import snapshot, Is\nfrom inline_snapshot.testing import Example\nfrom vp import *\n\n"
+# values whose comparisons return an object with a truth value instead of a bool (like numpy scalars do)
+SCALAR = (
+    "class Truth:\n    def __init__(self, v):\n        self.v = v\n\n    def __bool__(self):\n        return self.v\n\n    def __repr__(self):\n        return f'Truth({self.v})'\n\n\n"
+    "class Scalar:\n    def __init__(self, n):\n        self.n = n\n\n    def __repr__(self):\n        return f'Scalar({self.n})'\n\n"
+    "    def __eq__(self, other):\n        return Truth(self.n == other.n) if type(other) is Scalar else NotImplemented\n\n"
+    "    def __le__(self, other):\n        return Truth(self.n <= other.n) if type(other) is Scalar else NotImplemented\n\n"
+    "    def __ge__(self, other):\n        return Truth(self.n >= other.n) if type(other) is Scalar else NotImplemented\n\n\n"
+)
+HEADER = "import pytest\nfrom inline_snapshot import snapshot, Is\nfrom inline_snapshot.testing import Example\nfrom vp import *\n\n" + SCALAR
 # tests that use the public testing helper with snapshot() arguments: the inner example runs in a nested
 # inline-snapshot state, the snapshots passed to run_inline belong to the outer test
 INNER = '{"test_inner.py": "from inline_snapshot import snapshot\\ndef test_inner():\\n    assert %d == snapshot()\\n"}'
@@ -58,6 +66,16 @@ RULE = (
 ASSUMPTIONS = [
     "scope of the statement: snapshots executed inside test functions, copyable values, arguments that do not change between evaluations",
     "review sessions get four answers on stdin and FORCE_COLOR (the plugin then sees a terminal)",
+]
+
+
+SCALAR_TESTS = [
+    ("falsy-object-result-eq", True, "assert Scalar({x}) == snapshot(Scalar({y}))"),
+    ("falsy-object-result-req", True, "assert snapshot(Scalar({y})) == Scalar({x})"),
+    ("falsy-object-result-le", True, "assert Scalar({z}) <= snapshot(Scalar({x}))"),
+    ("falsy-object-result-ge", True, "assert Scalar({x}) >= snapshot(Scalar({z}))"),
+    ("truthy-object-result-eq", False, "assert Scalar({x}) == snapshot(Scalar({x}))"),
+    ("truthy-object-result-le", False, "assert Scalar({x}) <= snapshot(Scalar({z}))"),
 ]
 
 
@@ -147,6 +165,11 @@ def make_file(rng):
         k = 1000 + j
         tests.append(f"def test_{k}():\n    " + tmpl.format(x=rng.randint(10, 90)) + "\n")
         metas[f"test_{k}"] = {"bad": False, "kind": "good-nested", "pos": "-", "ops": ["eq"]}
+    for j, (kind, bad, body) in enumerate(SCALAR_TESTS):
+        k = 3000 + j
+        x = rng.randint(10, 90)
+        tests.append(f"def test_{k}():\n    " + body.format(x=x, y=x + 1, z=x + 5) + "\n")
+        metas[f"test_{k}"] = {"bad": bad, "kind": kind, "pos": "-", "ops": [kind.split("-")[-1]], "asserting": True}
     for j, (kind, bad, body) in enumerate(TESTING_API):
         k = 2000 + j
         tests.append(f"def test_{k}():\n    " + (body % rng.randint(10, 90)) + "\n")
